@@ -202,8 +202,8 @@ Qed.
 Definition new_op (o : oid) (k : okind) (a : aid) (caller : option aid) (fn : fnname) (dl : option N) (tr : bool) : op :=
   mkOp o k a fn caller dl OPre SlEmpty tr.
 
-Inductive BeginShape (s : sys) (o : oid) (k : okind) (a : aid) (caller : option aid) (s' : sys) : Prop :=
-| BS_noop : s' = s -> BeginShape s o k a caller s'
+Inductive BeginShape (s : sys) (o : oid) (k : okind) (a : aid) (caller : option aid) (tmo : option N) (fn : fnname) (s' : sys) : Prop :=
+| BS_noop : s' = s -> BeginShape s o k a caller tmo fn s'
 | BS_send q g xa :
     get_op s o = None -> get_actor s a = Some xa ->
     o_id q = o -> o_kind q = k -> o_tgt q = a -> o_caller q = caller -> o_ph q = OPre -> o_slot q = SlEmpty ->
@@ -213,10 +213,11 @@ Inductive BeginShape (s : sys) (o : oid) (k : okind) (a : aid) (caller : option 
     caller_ok s caller = true ->
     o_tracked q = (match dd_check s k caller xa with DDTrack _ _ => true | _ => false end) ->
     (forall c cyc, dd_check s k caller xa <> DDPanic c cyc) ->
-    BeginShape s o k a caller s'
+    o_fn q = fn -> (o_deadline q = None <-> tmo = None) ->
+    BeginShape s o k a caller tmo fn s'
 | BS_panic c xc F FO EVS :
     get_op s o = None -> get_actor s c = Some xc -> DdPanic s c xc F FO EVS -> s' = NF c F FO EVS s ->
-    BeginShape s o k a caller s'.
+    BeginShape s o k a caller tmo fn s'.
 
 (* the panicking shape, in normal form *)
 Lemma begin_panic_nf s o k a caller xa c cyc :
@@ -243,7 +244,7 @@ Proof.
     apply DdP_plain; [exact Hhook|]. intros o' k' E. unfold idf in E. rewrite Hpc in E. discriminate.
 Qed.
 
-Lemma begin_cases s o k a caller tmo fn : BeginShape s o k a caller (begin o k a caller tmo fn s).
+Lemma begin_cases s o k a caller tmo fn : BeginShape s o k a caller tmo fn (begin o k a caller tmo fn s).
 Proof.
   unfold begin.
   destruct (get_op s o) eqn:Hfresh; [apply BS_noop; reflexivity|].
@@ -252,13 +253,15 @@ Proof.
   apply andb_prop in Hc. destruct Hc as [Hc _].
   set (s0 := emit (EvBegin o k a) s).
   destruct (dd_check s k caller xa) as [|c bid|c cyc] eqn:Hdd.
-  - eapply (BS_send _ _ _ _ _ _ (mkOp o k a fn caller _ OPre SlEmpty false) (fun st => st) xa); try reflexivity; try assumption.
+  - eapply (BS_send _ _ _ _ _ _ _ _ (mkOp o k a fn caller _ OPre SlEmpty false) (fun st => st) xa); try reflexivity; try assumption.
     + rewrite Hdd. reflexivity.
     + intros c cyc. rewrite Hdd. discriminate.
-  - eapply (BS_send _ _ _ _ _ _ (mkOp o k a fn caller _ OPre SlEmpty true)
+    + cbn. destruct tmo; split; intros; congruence.
+  - eapply (BS_send _ _ _ _ _ _ _ _ (mkOp o k a fn caller _ OPre SlEmpty true)
               (fun st => set_s_graph (g_insert bid (a_id xa) (s_graph s0)) st) xa); try reflexivity; try assumption.
     + rewrite Hdd. reflexivity.
     + intros c2 cyc. rewrite Hdd. discriminate.
+    + cbn. destruct tmo; split; intros; congruence.
   - unfold dd_check in Hdd. destruct k; try discriminate. destruct caller as [c'|]; try discriminate.
     destruct (f_dd (s_feat s)); try discriminate.
     destruct (get_actor s c') as [xc|] eqn:Hxc; try discriminate.
@@ -326,7 +329,8 @@ Lemma step_new_op s l o p' :
     s_trace s1 = EvBegin o k a :: s_trace s /\ s_now s1 = s_now s /\
     (forall b y, get_actor s1 b = Some y -> exists x, get_actor s b = Some x /\ a_closed y = a_closed x) /\
     (* with the detector on, an ask begun by a hook is tracked *)
-    (f_dd (s_feat s) = true -> k = KAsk -> (exists b, caller = Some b) -> o_tracked q = true).
+    (f_dd (s_feat s) = true -> k = KAsk -> (exists b, caller = Some b) -> o_tracked q = true) /\
+    o_fn q = fn /\ (o_deadline q = None <-> tmo = None).
 Proof.
   intros Hn Hp'.
   assert (Hsame : s_ops (sys_step s l) = s_ops s -> False).
@@ -339,13 +343,14 @@ Proof.
   destruct l; try (exfalso; apply (Hactor a); reflexivity).
   - exfalso. apply Hsame. apply spawn_ops.
   - cbn [sys_step] in Hp'.
-    destruct (begin_cases s o0 k a caller tmo fn) as [E|q g xa Hf Hxa Hid Hk Ht Hcl Hph Hsl Ga Gt Go Gn E Hcok Htrk Hnp|c xc F FO EVS _ Hxc HD E].
+    destruct (begin_cases s o0 k a caller tmo fn) as [E|q g xa Hf Hxa Hid Hk Ht Hcl Hph Hsl Ga Gt Go Gn E Hcok Htrk Hnp Hfn Hdl|c xc F FO EVS _ Hxc HD E].
     + rewrite E in Hp'. congruence.
     + destruct (begin_send_spec s o0 k a caller q g xa _ Hf Hxa Hid Ht Hph Ga Gt Go Gn E) as (s1 & q' & evs & HS & HB & Ho & Htr & Hnow & Hcl1).
       destruct (Nat.eqb_spec o o0) as [->|Hne].
       * pose proof (os_get _ _ _ _ _ _ HS) as G. rewrite Hp' in G. injection G as ->.
         exists k. exists a. exists caller. exists tmo. exists fn. exists q. exists s1. exists evs.
         cbn [sys_step]. repeat (split; [first [assumption|reflexivity]|]).
+        split; [|split; assumption].
         intros Hdd -> [b ->]. rewrite Htrk. unfold dd_check in *. rewrite Hdd in *.
         unfold caller_ok in Hcok. destruct (get_actor s b) as [yb|]; [|discriminate].
         destruct (N.eqb (a_id yb) (a_id xa) || has_path (s_graph s) (a_id xa) (a_id yb)); [|reflexivity].
